@@ -508,9 +508,9 @@ def gen_simd_target(sel, width_all=True):
     (given as literal bytes: portable on the same target) and edge-value lanes"""
     def g(r, tier, info):
         cases = []
-        lens = list(range(0, 34)) + [47, 48, 63, 64, 65, 96, 100] if tier == "quick" else list(range(0, 131)) + [160, 200, 255, 256, 257]
+        lens = list(range(0, 34)) + [47, 48, 63, 64, 65, 96, 100, 192, 1000] if tier == "quick" else list(range(0, 131)) + [160, 200, 255, 256, 257, 1000, 4097]
         for n in lens:
-            key = rkey(r)
+            key = gen.key_for(r, n)
             data = rbytes(r, n)
             ws = (64, 128, 256) if (tier != "quick" or n % 3 == 0) else (r.choice((64, 128, 256)),)
             b = B(f"{sel}-{n}", [f"len%32={n % 32}", sel])
@@ -538,6 +538,19 @@ def gen_simd_target(sel, width_all=True):
             for x in f:
                 b.eq(x, ref, f"{sel}: result after cross-back-end checkpoint/restore differs from the uninterrupted hash")
             cases.append(b)
+        # the provided one-shot helpers hashN(self, data) on an ALREADY FED hasher (a back end may override them)
+        for p in ((1, 7, 16, 31) if tier == "quick" else range(1, 32)):
+            for m in (0, 1, 32 - p, 40, 70):
+                key = rkey(r)
+                pre, data = rbytes(r, p), rbytes(r, m)
+                w = r.choice((64, 128, 256))
+                b = B(f"{sel}-hashfin-{p}-{m}", [sel, "hashfin"])
+                b.op(f"new 0 {sel} {kstr(key)}")
+                b.op(f"append 0 {hexbytes(pre)}")
+                i = b.op(f"hashfin 0 {w} {hexbytes(data)}")
+                j = b.op(f"hash portable {w} {kstr(key)} {hexbytes(pre + data)}")
+                b.eq(i, j, f"{sel}: hashN(data) on a fed hasher differs from the portable hash of everything fed")
+                cases.append(b)
         for c in (0, 1, 31, 32, 33, 2**31, 2**32 - 1):
             cases.append(gen.malformed(r, ["portable", sel, "auto"], count=c))
         for _ in range(6 if tier == "quick" else 120):
